@@ -165,4 +165,19 @@ theorem comparePre_antisymm (a b : Bytes) : comparePre a b = - comparePre b a :=
   cases ha : a.isEmpty <;> cases hb : b.isEmpty <;> simp
   exact cmpIdents_antisymm _ _
 
+/-! `Ver.compare` (used by the code tie of `Ver.Latest`; the property file C14 states the same laws) -/
+
+theorem Ver.compare_range (v w : Ver) : v.compare w = -1 ∨ v.compare w = 0 ∨ v.compare w = 1 := by
+  unfold Ver.compare
+  repeat' split
+  all_goals first | (left; rfl) | (right; right; rfl) | exact comparePre_range _ _
+
+theorem Ver.compare_antisymm (v w : Ver) : v.compare w = - w.compare v := by
+  unfold Ver.compare
+  simp only [gt_iff_lt]
+  have hp := comparePre_antisymm v.pre w.pre
+  repeat' split
+  all_goals first | omega | rfl
+
+
 end U.Sem
